@@ -23,11 +23,11 @@ inductive CSpecial (cfg : Cfg) (s : State) (t : Tid) (s' : State) : Prop
   | restart (c : Bool) : s.cl t = .clrRestart c → s' = stClrRestart s t c → CSpecial cfg s t s'
   | finish : s.cl t = .clsFinish → s' = stClsFinish s t → CSpecial cfg s t s'
 
-theorem evictAll_buf (s : State) (st : Store) (ks : List Hash) : (evictAll s st ks).buf = s.buf := by
+theorem evictAll_buf_lv (s : State) (st : Store) (ks : List Hash) : (evictAll s st ks).buf = s.buf := by
   induction ks generalizing s with
   | nil => rfl
   | cons k rest ih => unfold evictAll; split <;> simp [ih]
-theorem evictAll_sendq (s : State) (st : Store) (ks : List Hash) : (evictAll s st ks).sendq = s.sendq := by
+theorem evictAll_sendq_lv (s : State) (st : Store) (ks : List Hash) : (evictAll s st ks).sendq = s.sendq := by
   induction ks generalizing s with
   | nil => rfl
   | cons k rest ih => unfold evictAll; split <;> simp [ih]
@@ -41,7 +41,7 @@ theorem evictAll_nextMarker (s : State) (st : Store) (ks : List Hash) :
   induction ks generalizing s with
   | nil => rfl
   | cons k rest ih => unfold evictAll; split <;> simp [ih]
-theorem evictAll_store (s : State) (st : Store) (ks : List Hash) : (evictAll s st ks).store = s.store := by
+theorem evictAll_store_lv (s : State) (st : Store) (ks : List Hash) : (evictAll s st ks).store = s.store := by
   induction ks generalizing s with
   | nil => rfl
   | cons k rest ih => unfold evictAll; split <;> simp [ih]
@@ -49,11 +49,11 @@ theorem evictAll_em (s : State) (st : Store) (ks : List Hash) : (evictAll s st k
   induction ks generalizing s with
   | nil => rfl
   | cons k rest ih => unfold evictAll; split <;> simp [ih]
-theorem evictAll_pol (s : State) (st : Store) (ks : List Hash) : (evictAll s st ks).pol = s.pol := by
+theorem evictAll_pol_lv (s : State) (st : Store) (ks : List Hash) : (evictAll s st ks).pol = s.pol := by
   induction ks generalizing s with
   | nil => rfl
   | cons k rest ih => unfold evictAll; split <;> simp [ih]
-theorem evictAll_met (s : State) (st : Store) (ks : List Hash) : (evictAll s st ks).met = s.met := by
+theorem evictAll_met_lv (s : State) (st : Store) (ks : List Hash) : (evictAll s st ks).met = s.met := by
   induction ks generalizing s with
   | nil => rfl
   | cons k rest ih => unfold evictAll; split <;> simp [ih]
@@ -61,7 +61,7 @@ theorem evictAll_clock (s : State) (st : Store) (ks : List Hash) : (evictAll s s
   induction ks generalizing s with
   | nil => rfl
   | cons k rest ih => unfold evictAll; split <;> simp [ih]
-theorem evictAll_ringPending (s : State) (st : Store) (ks : List Hash) :
+theorem evictAll_ringPending_lv (s : State) (st : Store) (ks : List Hash) :
     (evictAll s st ks).ringPending = s.ringPending := by
   induction ks generalizing s with
   | nil => rfl
@@ -208,7 +208,7 @@ theorem client_shape {cfg : Cfg} {s s' : State} {t : Tid} {ch : Choice}
         split at hr
         · simp at hr
         · simp only [Option.some.injEq] at hr; subst hr
-          refine ⟨by simp [evictAll_buf], by simp [evictAll_sendq], by simp [evictAll_closedMarkers],
+          refine ⟨by simp [evictAll_buf_lv], by simp [evictAll_sendq_lv], by simp [evictAll_closedMarkers],
             by simp [evictAll_nextMarker], by simp [evictAll_app], by simp [evictAll_closed],
             fun _ hne => by simp [setCl_cl_ne _ _ _ hne, evictAll_cl], by rw [hpc]; rfl, ?_⟩
           rw [hpc]; simp only [setCl_cl_self]
